@@ -34,7 +34,7 @@ def run_one(d):
             rc, out = sh("cd %s && VERIF_REPO=%s ./check %s --tier quick" % (ROOT, wt, pid))
             wall = round(time.time() - t0, 1)
             # put back the committed snapshot of what this property regenerates (the run rewrote it from the patched tree)
-            sh("cd %s && git checkout -- $(git ls-files 'lean/RkVerif/Gen/%s*' 'harness/gen/%s*')" % (ROOT, pid, pid.lower()))
+            sh("cd %s && gf=$(git ls-files 'lean/RkVerif/Gen/%s*' 'harness/gen/%s*') && [ -n \"$gf\" ] && git checkout -- $gf" % (ROOT, pid, pid.lower()))
         finally:
             if pid in GEN_GROUP:
                 gen_lock.release()
@@ -116,5 +116,4 @@ if __name__ == "__main__":
     with concurrent.futures.ThreadPoolExecutor(jobs) as ex:
         for sid, res in ex.map(run_one, dirs):
             print(sid, "reported" if res.get("reported") else "NOT REPORTED", res.get("violation_kinds"), res.get("wall_s"), flush=True)
-    sh("git -C %s checkout -- lean/RkVerif/Gen harness/gen" % ROOT)
-    rewrite_design()
+    rewrite_design()   # (each run has already put back the Gen files of its own property)
